@@ -7,7 +7,7 @@ from props import c10
 
 ID = "C13"
 LEVEL = "proof"
-THEOREMS = ["C13_duplicate_is_hand_expansion", "C13_dup_product", "C13_angles_spec"]
+THEOREMS = ["C13_duplicate_is_hand_expansion", "C13_dup_product", "C13_angles_spec", "C13_comment_removed", "C13_line_is_hand_expansion", "C13_plain_line_untouched", "C13_length_line_binds", "C13_length_line_shape", "C13_output_only_appended"]
 TRUSTED = ["Python's eval is not modelled: expressions of the integer subset (+ - * // % unary minus, parentheses, names) reach the model as ASTs keyed by their source text, generated together with that text by the harness; any other expression is reported as unsupported",
            "harness transcription of the hand expansion (hand_expand) used as the failing-input oracle"]
 ASSUMPTIONS = ["instance arguments are integers"]
